@@ -28,6 +28,7 @@ import (
 
 	"git.metabarcoding.org/obitools/obitools4/obitools4/pkg/obiformats"
 	"git.metabarcoding.org/obitools/obitools4/obitools4/pkg/obingslibrary"
+	"git.metabarcoding.org/obitools/obitools4/obitools4/pkg/obitools/obimultiplex"
 )
 
 func (c12) execSheetB(f []string) (string, []Fail) {
@@ -54,6 +55,15 @@ func (c12) execSheetB(f []string) (string, []Fail) {
 		stat("sheetb.beyond-detector-limit")
 	}
 	var fails []Fail
+	// `obimultiplex --template` prints CLIConfigTemplate(): the printed example must be a sheet the reader accepts, with the
+	// marker and the four samples it shows and the default parameters it spells out (it is longer than the 3072 bytes the
+	// detectors look at: they only see comments and @param lines)
+	if text == obimultiplex.CLIConfigTemplate() {
+		stat("sheetb.template")
+		if !strings.HasPrefix(res, "ok 1 ## "+c12h("ttagataccccactatgc")+" "+c12h("tagaacaggctcctctag")+" 0 0 0 0 0 0 strict strict 2 2 0 0 7 7 4 ") {
+			fails = append(fails, Fail{"template.not-accepted", "the sheet printed by --template is read as: " + res})
+		}
+	}
 	if r2 := run(); r2 != res {
 		fails = append(fails, Fail{"sheet.nondeterministic", "two readings of the same sheet differ: " + res + "  VERSUS  " + r2})
 	}
@@ -264,6 +274,8 @@ func c12GenBytes(rng *rand.Rand, tier string, emit func(string)) {
 	} {
 		hb(t)
 	}
+	hb(obimultiplex.CLIConfigTemplate())
+	hb(strings.ReplaceAll(obimultiplex.CLIConfigTemplate(), "\n", "\r\n"))
 	n := 500
 	if tier == "thorough" {
 		n = 1500
